@@ -4,6 +4,7 @@ import (
 	"bytes"
 	"context"
 	"fmt"
+	"math/big"
 	"os"
 	"os/exec"
 	"path/filepath"
@@ -49,6 +50,10 @@ var builtinUFs = map[string]builtinUF{
 		"(forall ((a (Array Int Int)) (n Int) (b (Array Int Int)) (m Int) (i Int)) (! (= (select (sq.cat a n b m) i) (ite (and (<= 0 i) (< i n)) (select a i) (ite (and (<= n i) (< i (+ n m))) (select b (- i n)) 0))) :pattern ((select (sq.cat a n b m) i))))"}, nil},
 	"sq.ofstr": {[]string{sStr}, sAI, []string{
 		"(forall ((s Str) (i Int)) (! (= (select (sq.ofstr s) i) (ite (and (<= 0 i) (< i (gs.len s))) (gs.at s i) 0)) :pattern ((select (sq.ofstr s) i))))"}, []string{"gs.len", "gs.at"}},
+	"nl.div": {[]string{sInt, sInt}, sInt, []string{
+		"(forall ((a Int) (b Int)) (! (=> (and (>= a 0) (> b 0)) (and (<= 0 (nl.div a b)) (<= (nl.div a b) a))) :pattern ((nl.div a b))))"}, nil},
+	"nl.mod": {[]string{sInt, sInt}, sInt, []string{
+		"(forall ((a Int) (b Int)) (! (=> (and (>= a 0) (> b 0)) (and (<= 0 (nl.mod a b)) (< (nl.mod a b) b))) :pattern ((nl.mod a b))))"}, nil},
 	"bit.and":    {[]string{sInt, sInt}, sInt, nil, nil},
 	"bit.or":     {[]string{sInt, sInt}, sInt, nil, nil},
 	"bit.xor":    {[]string{sInt, sInt}, sInt, []string{"(forall ((a Int) (b Int)) (! (= (bit.xor (bit.xor a b) b) a) :pattern ((bit.xor (bit.xor a b) b))))", "(forall ((a Int) (b Int)) (! (= (bit.xor a b) (bit.xor b a)) :pattern ((bit.xor a b))))"}, nil},
@@ -236,6 +241,33 @@ func (e *Engine) smtText(o *Obligation, extra []string, getValues []string) stri
 	for _, ax := range axTexts {
 		fmt.Fprintf(&b, "(assert %s)\n", ax)
 	}
+	// nl.mod / nl.div agree with mod / div for the integer constants that occur in the function
+	if ufNeeded["nl.mod"] || ufNeeded["nl.div"] {
+		var cs []string
+		for c := range e.litConsts {
+			cs = append(cs, c)
+		}
+		sort.Strings(cs)
+		if len(cs) > 48 {
+			cs = cs[:48]
+		}
+		for _, c := range cs {
+			if ufNeeded["nl.mod"] {
+				fmt.Fprintf(&b, "(assert (forall ((a Int)) (! (= (nl.mod a %s) (mod a %s)) :pattern ((nl.mod a %s)))))\n", c, c, c)
+				// ground instances for constant dividend and constant divisor
+				cn, _ := new(big.Int).SetString(c, 10)
+				for _, d := range cs {
+					dn, _ := new(big.Int).SetString(d, 10)
+					if cn != nil && dn != nil && dn.Sign() > 0 && cn.Cmp(dn) >= 0 {
+						fmt.Fprintf(&b, "(assert (= (nl.mod %s %s) %s))\n", c, d, new(big.Int).Mod(cn, dn).String())
+					}
+				}
+			}
+			if ufNeeded["nl.div"] {
+				fmt.Fprintf(&b, "(assert (forall ((a Int)) (! (= (nl.div a %s) (div a %s)) :pattern ((nl.div a %s)))))\n", c, c, c)
+			}
+		}
+	}
 	for _, f := range facts {
 		fmt.Fprintf(&b, "(assert %s)\n", f)
 	}
@@ -400,6 +432,26 @@ func (e *Engine) recheck(o *Obligation, extra []string, timeout time.Duration) s
 	}
 	os.WriteFile(file, []byte(txt), 0o644)
 	return race(file, timeout)
+}
+
+// quickValid: does the path condition entail goal? (short solver call used while generating VCs)
+func (e *Engine) quickValid(pc *pcNode, goal string) bool {
+	key := goal + "@" + fmt.Sprintf("%p", pc)
+	if v, ok := e.quickCache[key]; ok {
+		return v
+	}
+	o := &Obligation{Name: "quick", PC: pc, Goal: goal}
+	txt := e.smtText(o, nil, nil)
+	e.quickCtr++
+	file := filepath.Join(os.TempDir(), fmt.Sprintf("govc-quick-%d-%d.smt2", os.Getpid(), e.quickCtr))
+	os.WriteFile(file, []byte(txt), 0o644)
+	defer os.Remove(file)
+	ctx, cancel := context.WithTimeout(context.Background(), 4*time.Second)
+	defer cancel()
+	r := runOne(ctx, solverCmds[0], file, 3*time.Second)
+	res := r.status == "unsat"
+	e.quickCache[key] = res
+	return res
 }
 
 func dedup(xs []string) []string {
